@@ -89,6 +89,47 @@ def generate(seed, tier):
     # interceptor (an item that resolves must not be lost because a sibling
     # does not, and vice versa)
     from ..world import Index
+    must_names, must_undefined = set(), set()
+    root_consts = [c for c in world['cells'] if c['at'][:2] == [0, 0] and
+                   'arr' not in c]
+    if sw.chance(.3) and len(root_consts) >= 2 and \
+            len(world['names']) + 2 <= 8:
+        # two names of the root book, both about to be undefined, used by ONE
+        # formula, each behind its own interceptor
+        from ..world import Index as _Ix
+        ca, cb = fr.sample(root_consts, 2)
+        ks = []
+        for c in (ca, cb):
+            world['names'].append({'b': 0, 'avail': 0, 't': [
+                'r'] + c['at'] + c['at'][2:]})
+            ks.append(len(world['names']) - 1)
+        must_names.update(ks)
+        must_undefined.update(ks)
+        ix = _Ix(world)
+        h0, w0 = world['books'][0][0]
+        cov_ = set()     # (a referenced position would close a cycle)
+        for c in world['cells']:
+            if 'f' in c:
+                for x in refs_of(c['f']):
+                    cov_.update(rect_cells(
+                        x if x[0] == 'r' else world['names'][x[1]]['t']))
+        for nm_ in world['names']:
+            cov_.update(rect_cells(nm_['t']))
+        spot = next(((0, 0, r, c) for r in range(h0 + 3)
+                     for c in range(w0 + 3)
+                     if ix.occupant((0, 0, r, c)) is None and
+                     (0, 0, r, c) not in cov_), None)
+        kind_ = fr.randrange(3)
+        na, nb = ['nm', ks[0]], ['nm', ks[1]]
+        f = ['op', '+', ['f', 'IFERROR', na, ['n', 0]],
+             ['f', 'IFERROR', nb, ['n', 0]]] if kind_ == 0 else \
+            ['op', '+', ['f', 'ISERROR', na], ['f', 'ISERROR', nb]] \
+            if kind_ == 1 else \
+            ['f', 'IF', ['f', 'ISERROR', nb], ['n', 7], na]
+        if spot:
+            world['cells'].append({'at': list(spot), 'f': f})
+            world['books'][0][0] = [max(h0, spot[2] + 1),
+                                    max(w0, spot[3] + 1)]
     if sw.chance(.6):
         leaves_ = []
         for k, nm in enumerate(world['names']):
@@ -126,6 +167,10 @@ def generate(seed, tier):
             if len(leaves_) < 2 or not free:
                 break
             a, b2 = leaves_.pop(), leaves_.pop()
+            for leaf in (a, b2):    # names met here become fault points
+                for x in walk(leaf):
+                    if x[0] == 'nm':
+                        must_names.add(x[1])
             k = fr.randrange(6)
             if k == 4:    # IS... predicates other than ISERROR
                 f = ['op', '+', ['f', fr.pick(['ISNA', 'ISNUMBER', 'ISTEXT']),
@@ -159,9 +204,10 @@ def generate(seed, tier):
             continue
         points.append({'kind': 'sheet', 'b': b, 's': s})
     for k in range(len(world['names'])):
-        if fr.chance(.5):
+        if fr.chance(.5) or k in must_names:
             points.append({'kind': 'name', 'k': k,
-                           'broken': fr.chance(.4)})
+                           'broken': fr.chance(.4) and
+                           k not in must_undefined})
     points = points[:5]
     fcells = [i for i, c in enumerate(world['cells'])
               if 'f' in c and 'arr' not in c]
